@@ -105,7 +105,7 @@ PROPOSED_FINDINGS = [
      "witness": {"src": "self.a.get() + 1\nself.r.prepare(self.a.get())"},
      "what": "a bare expression statement (`self.a.get() + 1` on its own line) is not refused: ReplaceExpr drops the ast.Expr wrapper and the "
              "expression text `a+1` is emitted in statement position (not Verilog); candidate repair /tmp/C02_bare_expr.diff"},
-    {"id": "C02-wire-value-target", "property": "C02", "status": "known", "anchor": "py4hw/transpilation/python2verilog_transpilation.py:585",
+    {"id": "C02-wire-value-target", "property": "C02", "status": "fixed", "fixed_by": "f603896", "anchor": "py4hw/transpilation/python2verilog_transpilation.py:585",
      "class_expr": "r.get('construct')=='assign-to-wire-attr' and r.get('kind') in ('accepted-unsupported','mismatch','x-after-write','x-state','x-consequence')",
      "witness": {"src": "self.r.value = self.a.get()", "history": [{"a": 5}], "signal": "r", "sim": 5, "verilog": "x"},
      "what": "an attribute target deeper than self.<name> is not refused: ReplaceWiresAndVariables.visit_Attribute looks only at the LAST "
@@ -796,8 +796,8 @@ WITNESSES = [  # (class, history, expected finding id)
     ('WTernaryInCall', [{'a': 5, 'b': 3}, {'a': 1, 'b': 0}, {'a': 200, 'b': 100}, {'a': 2, 'b': 9}], 'regression:agree'),
     # regression (fixed 61df158): a float constant in the method body must be refused
     ('WFloatConst', [{'a': 1, 'b': 0}], 'regression:refuse'),
-    # direct write to a wire's .value: accepted and emitted as a fresh variable `value` (finding C02-wire-value-target)
-    ('WValueTarget', [{'a': 5, 'b': 0}, {'a': 7, 'b': 0}], 'C02-wire-value-target'),
+    # regression (fixed f603896): a direct write to a wire's .value (attribute chain deeper than self.<name>) must be refused
+    ('WValueTarget', [{'a': 5, 'b': 0}, {'a': 7, 'b': 0}], 'regression:refuse'),
     # the constructor assigns a state attribute several times: the `initial` block must leave the LAST constant
     ('WMultiInit', [{'a': 1, 'b': 0}, {'a': 0, 'b': 0}, {'a': 1, 'b': 0}, {'a': 1, 'b': 0}], 'regression:agree'),
     ('WGuard', [{'a': 0, 'b': 0}, {'a': 0, 'b': 0}], 'C02-guarded-case'),
